@@ -44,7 +44,10 @@ const hangTimeout = 120 * time.Second
 
 // Case is the replay artefact.
 type Case struct {
-	Size int `json:"signed_size"`
+	// Signed: content spec of the signed file ("" = Size pseudo-random bytes); used
+	// by the structured family (zero blocks, repeated blocks).
+	Signed string `json:"signed,omitempty"`
+	Size   int    `json:"signed_size"`
 	// Alt: one letter per signed block: '-' unchanged, 'f' first byte of the block
 	// inverted, 'l' last byte inverted, 'n' replaced by the next signed block
 	// (only where both are full blocks). Applied before the length change.
@@ -62,7 +65,7 @@ func main() {
 	runner.Main(runner.Config{
 		ID:    "C18",
 		Level: "model_checking",
-		Rule:  "bounded exhaustive enumeration: signed size in {0,1,B-1,B,B+1,2B,2B+1 (thorough: +3B)} x written content = signed content with every assignment of {unchanged, first byte inverted, last byte inverted, replaced by the next signed block (full blocks only)} to its blocks | truncated to every length of {0,1,B-1,B,B+1,2B,size-1} below the size | extended by {1,B-1,B,B+1} (thorough: every single-block alteration combined with every length change) x slicing = every set of <=3 cuts at positions {1,B-1,B,B+1,2B-1,2B,len-1} inside the written range, plus uniform writes of 1, 4096, 32768 and B+1 bytes x mode {error, wound, wound through AggregateWounds}. Each case drives the real ValidatingPool writer over verif/lib/mempool; after a failed Write no further Write is issued and the writer is closed, as a caller with a deferred Close does. Oracle by direct byte comparison per block. Non-trivial = the written content has at least one differing or surplus block and at least one boundary between two Write calls lies inside a block.",
+		Rule:  "bounded exhaustive enumeration: signed size in {0,1,B-1,B,B+1,2B,2B+1 (thorough: +3B)} x written content = signed content with every assignment of {unchanged, first byte inverted, last byte inverted, replaced by the next signed block (full blocks only)} to its blocks | truncated to every length of {0,1,B-1,B,B+1,2B,size-1} below the size | extended by {1,B-1,B,B+1} (thorough: every single-block alteration combined with every length change) ; plus a structured family (signed contents made of zero blocks and repeated blocks: Z.Z, A.A, A.A.A, Z.A, A.Z, with tails; every assignment of {unchanged, fresh random block, zero block, previous signed block} to the blocks) x slicing = every set of <=3 cuts at positions {1,B-1,B,B+1,2B-1,2B,len-1} inside the written range, plus uniform writes of 1, 4096, 32768 and B+1 bytes x mode {error, wound, wound through AggregateWounds}. Each case drives the real ValidatingPool writer over verif/lib/mempool; after a failed Write no further Write is issued and the writer is closed, as a caller with a deferred Close does. Oracle by direct byte comparison per block. Non-trivial = the written content has at least one differing or surplus block and at least one boundary between two Write calls lies inside a block.",
 		Assumptions: []string{
 			"block contents are seeded pseudo-random (VERIF_SEED); altered bytes are bit inversions of single bytes, or whole signed blocks moved by one position",
 			"sequential part only: the goroutines of wound mode (relay, aggregator, a draining consumer) run under the Go scheduler; their interleavings are enumerated by the scheduler-controlled sub-check wound-interleavings (variant sched)",
@@ -106,6 +109,18 @@ func written(c Case, signed []byte, seed int64) []byte {
 			blk[0] ^= 0xff
 		case 'l':
 			blk[len(blk)-1] ^= 0xff
+		case 'z':
+			for i := range blk {
+				blk[i] = 0
+			}
+		case 'x':
+			copy(blk, wh.Content(fmt.Sprintf("r82/%d", len(blk)), seed+int64(j)))
+		case 'p':
+			prv := blockOf(signed, j-1)
+			if j == 0 || len(prv) < len(blk) {
+				panic("alteration p needs a previous block at least as long")
+			}
+			copy(blk, prv)
 		case 'n':
 			nxt := blockOf(signed, j+1)
 			if len(nxt) != B || len(blk) != B {
@@ -377,16 +392,21 @@ func body(w *runner.W) {
 		schedSubs(w)
 		return
 	}
-	fixtures := map[int]*fixture{}
-	signedOf := map[int][]byte{}
+	fixtures := map[string]*fixture{}
+	signedOf := map[string][]byte{}
 	run := func(c Case, r *runner.Rec) {
-		fx := fixtures[c.Size]
+		key := fmt.Sprintf("%s/%d", c.Signed, c.Size)
+		fx := fixtures[key]
 		if fx == nil {
-			signedOf[c.Size] = signedContent(c.Size, w.Seed)
-			fx = newFixture(signedOf[c.Size], w.Seed)
-			fixtures[c.Size] = fx
+			if c.Signed != "" {
+				signedOf[key] = wh.Content(c.Signed, w.Seed)
+			} else {
+				signedOf[key] = signedContent(c.Size, w.Seed)
+			}
+			fx = newFixture(signedOf[key], w.Seed)
+			fixtures[key] = fx
 		}
-		signed := signedOf[c.Size]
+		signed := signedOf[key]
 		wr := written(c, signed, w.Seed)
 		sl := slices(c, wr)
 		e := expectations(signed, wr, sl)
@@ -449,6 +469,36 @@ func body(w *runner.W) {
 					sub.Do(c)
 				}
 			}
+		}
+		// structured signed contents: zero blocks and repeated blocks, so that stale or
+		// neighbouring buffer content can equal a signed block
+		for _, spec := range []string{"Z.Z", "A.A", "A.A.A", "Z.A", "A.Z", "A.A.A/100", "Z.Z.z/100"} {
+			size := len(wh.Content(spec, w.Seed))
+			nb := numBlocks(size)
+			var gen func(j int, cur string)
+			gen = func(j int, cur string) {
+				if j == nb {
+					if strings.Trim(cur, "-") == "" {
+						return
+					}
+					nContents++
+					cw := Case{Signed: spec, Size: size, Alt: cur, Len: size}
+					for _, sc := range slicings(cw.Len, true) {
+						c := cw
+						c.Cuts, c.Uniform, c.Mode = sc.Cuts, sc.Uniform, mode
+						sub.Do(c)
+					}
+					return
+				}
+				letters := "-xz"
+				if j > 0 {
+					letters += "p"
+				}
+				for _, l := range letters {
+					gen(j+1, cur+string(l))
+				}
+			}
+			gen(0, "")
 		}
 		sub.Note("contents", nContents)
 		sub.Done()
